@@ -50,6 +50,8 @@ TEXTS = ["a", "bb", "", "ccc dd", "some longer words in a cell", "あい", "あ 
          "x  y", "あいうえおかき", "q\n\nr",
          # an over-long double-width word that must be folded, then a short word (len() != cell_len() after the fold)
          "あいうえおかきくけこ ab", "ｗｉｄｅｗｏｒｄｓ go on", "xあいうえおかきy z", "ab あいうえおかきくけこさし c d"]
+# one unbreakable word made of SEVERAL differently styled segments, double-width characters in a non-final one
+MARKUP_WORDS = ["[b]一二三[/b]abcdefgh", "ab[i]한글한글[/i]cd[u]漢字[/u]efghij", "[red]あいうえお[/red]x[b]y[/b]", "pre [b]一二[/b]三四五六 post"]
 WIDE_WORDS = ["あいうえおかきくけこ ab", "ｗｉｄｅｗｏｒｄｓ go on", "ab あいうえおかきくけこさし c d", "averyveryverylongword ab", "あいう"]
 # the ConsoleOptions the table is rendered WITH (console.print(table, no_wrap=True), a parent's options, ...)
 RENDER_OPTS = [{"no_wrap": True}, {"no_wrap": None}, {"no_wrap": True, "overflow": "crop"}, {"justify": "right"}, {"justify": "center", "overflow": "ellipsis"},
@@ -58,8 +60,10 @@ RENDER_OPTS = [{"no_wrap": True}, {"no_wrap": None}, {"no_wrap": True, "overflow
 
 def cell_of(rng, nested=True):
     r = rng.random()
-    if r < 0.62:
+    if r < 0.56:
         return ("s", rng.choice(TEXTS))
+    if r < 0.62:
+        return ("m", rng.choice(MARKUP_WORDS))
     if r < 0.80:
         return ("t", rng.choice(TEXTS), rng.choice([None, "left", "right", "center", "full"]))
     if not nested or r < 0.84:
@@ -81,7 +85,7 @@ def base_spec(rng, ncols, nrows, nested=True, plain_cols=False):
         c = {"header": cell_of(rng, nested), "footer": cell_of(rng, nested)}
         if not plain_cols:
             c["justify"] = rng.choice(["left", "left", "right", "center", "full"])
-            c["overflow"] = rng.choice(["fold", "fold", "crop", "ellipsis"])
+            c["overflow"] = rng.choice(["fold", "fold", "crop", "ellipsis", "ignore"])
             c["no_wrap"] = rng.random() < 0.15
         else:
             c["overflow"] = "fold"
@@ -271,6 +275,8 @@ def table_jobs(ctx):
                      {"show_footer": True, "show_lines": True}, {"show_footer": True, "leading": 1}, {"box": None, "show_edge": False},
                      {"pad_edge": False, "collapse_padding": True, "padding": (1, 2, 1, 3)}, {"expand": True, "min_width": 8},
                      {"expand": True, "box": None}, {"box": "ASCII", "show_edge": False, "show_lines": True},
+                     {"width": 17, "min_width": 6}, {"width": 20, "min_width": 30}, {"width": 12, "min_width": 8, "box": None},
+                     {"width": 15, "min_width": 5, "show_edge": False, "box": "SQUARE"}, {"width": 24, "min_width": 12, "expand": False},
                      {"box": "CUSTOM", "show_footer": True, "show_lines": True}, {"box": "CUSTOM", "show_footer": True, "leading": 1},
                      {"box": "CUSTOM", "show_header": False, "show_edge": False, "show_lines": True}]
         specs = []
@@ -373,6 +379,24 @@ def table_jobs(ctx):
             for ov in ({}, {"width": 6}, {"expand": True}, {"show_header": False}):
                 for w in (4, 9, 25):
                     misc.append({"cols": cols, "rows": rows, "opts": dict(ov, box="ASCII"), "avail": w})
+    # cells that must be CROPPED: an unbreakable multi-segment word (markup) with wide characters in a column that does not fold
+    for ov_col in ("ignore", "crop", "ellipsis"):
+        for word in MARKUP_WORDS:
+            cols = [{"header": ("s", "h"), "footer": ("s", ""), "overflow": ov_col}, {"header": ("s", "k"), "footer": ("s", ""), "overflow": "fold"}]
+            rows = [{"cells": [("m", word), ("s", "xy")], "end_section": False}]
+            for ov in ({"box": "SQUARE", "expand": True}, {"box": None}, {"box": "ASCII", "padding": (0, 0)}):
+                for w in range(8, 21, 2):
+                    misc.append({"cols": cols, "rows": rows, "opts": dict(ov), "avail": w})
+    # add_row with TWO OR MORE surplus cells on a table that already has rows: each created column gets its own back-fill
+    for n0 in (1, 2):
+        cols = [{"header": ("s", "c%d" % i), "footer": ("s", ""), "overflow": "fold"} for i in range(n0)]
+        rows = [{"cells": [("s", "r0")] * n0, "end_section": False},
+                {"cells": [("s", "r1")] * n0, "extra": [("s", "x1"), ("s", "y1")], "end_section": False},
+                {"cells": [("s", "r2")] * n0, "extra": [("s", "x2"), ("s", "y2"), ("s", "z2"), ("s", "w2")], "end_section": False},
+                {"cells": [("s", "r3")] * n0, "extra": [("s", "x3")], "end_section": False}]
+        for ov in ({"box": "ASCII"}, {"box": None, "show_header": False}, {"box": "SQUARE", "show_lines": True}):
+            for w in (12, 30, 50):
+                misc.append({"cols": cols, "rows": rows, "opts": dict(ov), "has_extra": True, "avail": w})
     # styles: table / border / header / footer / row_styles / per-row / per-column styles, cells with their own styles and control
     # segments, a whitespace-divider box (background rule), rows with FEWER cells than columns, show_lines with end_section
     scols = [{"header": ("s", "name"), "footer": ("st", "sum", "underline"), "overflow": "fold", "style": "cyan", "header_style": "red"},
@@ -400,7 +424,9 @@ def table_jobs(ctx):
         elif rng.random() < 0.08 and nrows >= 1:
             # a row with more cells than columns: add_row creates the column and back-fills the earlier rows
             k = rng.randrange(nrows)
-            spec["rows"][k]["extra"] = [cell_of(rng, nested=False)]
+            spec["rows"][k]["extra"] = [cell_of(rng, nested=False) for _ in range(rng.choice([1, 2, 2, 3]))]
+            if nrows >= 2 and rng.random() < 0.5:
+                spec["rows"][nrows - 1]["extra"] = [cell_of(rng, nested=False) for _ in range(rng.choice([2, 3, 4]))]
             spec["has_extra"] = True
         spec["via_column_objects"] = rng.random() < 0.2
         pad_choices = [rng.choice(PADDINGS), rng.choice(PADDINGS[:3])]
